@@ -525,15 +525,18 @@ func checkC19(P *Program, r *Result, tier string) {
 	// REMAINING
 	if fn := P.Method(rel, "defaultTransport", "RemainingBytes"); r.require("defaultTransport.RemainingBytes", fn != nil) {
 		// the method may hand its wrapped value to a package function that does the work
+		handedOff := false
 		if ret := singleReturn(fn); ret != nil && len(fn.Blocks) == 1 {
 			if c := asCall(ret.Results[0]); c != nil {
 				if cal := c.Common().StaticCallee(); cal != nil && inRepo(cal) && cal.Blocks != nil && len(c.Common().Args) == 1 {
 					if _, isField := c.Common().Args[0].(*ssa.Field); isField {
 						r.Funcs[shortName(fn)] = true
 						fn = cal
+						handedOff = true
 					} else if ld, isLd := c.Common().Args[0].(*ssa.UnOp); isLd && recvFieldOf(fn, ld.X) != "" {
 						r.Funcs[shortName(fn)] = true
 						fn = cal
+						handedOff = true
 					}
 				}
 			}
@@ -549,6 +552,17 @@ func checkC19(P *Program, r *Result, tier string) {
 		}
 		if r.require("ReadableLen call in defaultTransport.RemainingBytes", nVal != nil) {
 			n := fa.expand(nVal)
+			// the length asked is that of the wrapped object as it is now: the receiver of ReadableLen is a
+			// type assertion, made in this call, of the value the transport wraps
+			var ta *ssa.TypeAssert
+			recv := nVal.(*ssa.Call).Call.Value
+			if ex, ok := recv.(*ssa.Extract); ok {
+				ta, _ = ex.Tuple.(*ssa.TypeAssert)
+			} else {
+				ta, _ = recv.(*ssa.TypeAssert)
+			}
+			wrapped := ta != nil && isWrappedValue(fn, ta.X, handedOff)
+			r.add("REMAINING", shortName(fn), "source", "ReadableLen is asked of the wrapped object itself, looked up at the time of the call", P.pos(instrPos(nVal.(*ssa.Call))), wrapped, "")
 			for _, ret := range returnsOf(fn) {
 				v := ret.Results[0]
 				if cst, ok := v.(*ssa.Const); ok {
@@ -570,6 +584,22 @@ func checkC19(P *Program, r *Result, tier string) {
 						if touches {
 							facts := append(append([]*Lin{}, g.ineq...), ef.ineq...)
 							if !entails(fa.closeFacts(facts, nil, nil, ineqLE(n, linConst(0))), ineqLE(n, linConst(0))) {
+								edgesOK = false
+							}
+						} else if ta != nil && ta.CommaOk {
+							// the other way to "unknown": the wrapped object has no ReadableLen
+							q := p
+							for len(q.Succs) == 1 && len(q.Preds) == 1 && len(q.Instrs) == 1 {
+								q = q.Preds[0]
+							}
+							iff, isIf := q.Instrs[len(q.Instrs)-1].(*ssa.If)
+							okEdge := false
+							if isIf {
+								if ex, isEx := iff.Cond.(*ssa.Extract); isEx && ex.Tuple == ssa.Value(ta) && ex.Index == 1 {
+									okEdge = true
+								}
+							}
+							if !okEdge {
 								edgesOK = false
 							}
 						}
@@ -1098,6 +1128,30 @@ func isTrueOnlyUnderEquality(fn *ssa.Function, depth int) (bool, string) {
 				continue // a false result needs no justification
 			}
 		case *ssa.BinOp:
+			// "target == nil" where nothing is wrapped is errors.Is(nil, target) spelled out: the delegation clause
+			if (x.Op == token.EQL || x.Op == token.NEQ) && (isNilConst(x.X) || isNilConst(x.Y)) {
+				tv := x.X
+				if isNilConst(tv) {
+					tv = x.Y
+				}
+				if tv == ssa.Value(fn.Params[1]) {
+					wrappedNil := false
+					for _, dc := range blockConds(ret.Block(), nil, 0) {
+						if bo, ok := dc.Cond.(*ssa.BinOp); ok && (isNilConst(bo.X) || isNilConst(bo.Y)) && (bo.Op == token.EQL) == dc.Truth {
+							cv := bo.X
+							if isNilConst(cv) {
+								cv = bo.Y
+							}
+							if ld, isLd := cv.(*ssa.UnOp); isLd && ld.Op == token.MUL && strings.HasPrefix(pathOf(ld.X), "P:"+recv.Name()+".") && isErrorType(ld.Type()) {
+								wrappedNil = true
+							}
+						}
+					}
+					if wrappedNil {
+						continue
+					}
+				}
+			}
 			note(x, true)
 		case *ssa.Phi:
 			// a && b compiled to a value: every operand that can make it true counts
@@ -1126,4 +1180,46 @@ func isTrueOnlyUnderEquality(fn *ssa.Function, depth int) (bool, string) {
 		return false, "no path yields true under the equality conditions"
 	}
 	return true, ""
+}
+
+// isWrappedValue: v is the interface value the transport wraps (its embedded
+// io.ReadWriter field read from the receiver, or the parameter it was handed as).
+func isWrappedValue(fn *ssa.Function, v ssa.Value, handedOff bool) bool {
+	if len(fn.Params) == 0 {
+		return false
+	}
+	if handedOff {
+		return v == ssa.Value(fn.Params[0])
+	}
+	isEmbedded := func(st types.Type, i int) bool {
+		if p, ok := st.Underlying().(*types.Pointer); ok {
+			st = p.Elem()
+		}
+		s, ok := st.Underlying().(*types.Struct)
+		return ok && i < s.NumFields() && s.Field(i).Embedded() && types.IsInterface(s.Field(i).Type())
+	}
+	switch x := v.(type) {
+	case *ssa.Field:
+		return x.X == ssa.Value(fn.Params[0]) && isEmbedded(x.X.Type(), x.Field)
+	case *ssa.UnOp:
+		fa, ok := x.X.(*ssa.FieldAddr)
+		if !ok || x.Op != token.MUL || !isEmbedded(fa.X.Type(), fa.Field) {
+			return false
+		}
+		if fa.X == ssa.Value(fn.Params[0]) {
+			return true
+		}
+		// a value receiver spilled to a local
+		if al, ok := fa.X.(*ssa.Alloc); ok {
+			n, fromParam := 0, false
+			for _, u := range *al.Referrers() {
+				if st, ok := u.(*ssa.Store); ok && st.Addr == ssa.Value(al) {
+					n++
+					fromParam = st.Val == ssa.Value(fn.Params[0])
+				}
+			}
+			return n == 1 && fromParam
+		}
+	}
+	return false
 }
